@@ -127,13 +127,26 @@ def gen_cleanup(rng):
     return body + [("ret", 5)]
 
 
+def chain_of(e):
+    """explicit chaining of an exception the body raised: type of `__cause__` and `__suppress_context__`"""
+    c = e.__cause__
+    return f"cause={('x:' + cm.cname(c)) if c is not None else '-'} suppress_context={int(bool(e.__suppress_context__))}"
+
+
+LAST_CHAIN = [None]
+
+
 def outcome(fn):
+    LAST_CHAIN[0] = None
     try:
         r = fn()
         return f"r:{cm.val(r)}", "-"
     except BaseException as e:  # noqa: BLE001
-        # the chaining clause of the property is about SynchronousError only
+        # the chaining clause of the property is about SynchronousError only ...
         c = e.__cause__ if isinstance(e, ak_coro.SynchronousError) else None
+        # ... the body's own exception must arrive as a native run delivers it
+        if not isinstance(e, ak_coro.SynchronousError):
+            LAST_CHAIN[0] = chain_of(e)
         return "x:" + cm.cname(e), ("x:" + cm.cname(c)) if c is not None else "-"
 
 
@@ -170,6 +183,7 @@ def _run_sync_real(stmts, loop, variant):
         c = env.main()
         g = cm.gen_coroutine(c) if gen else c
         out, cause = outcome(lambda: asynkit.await_sync(g))
+    env.chain = LAST_CHAIN[0]
     line = f"out={out} ; cause={cause} ; phase={cm.phase(c)} ; log={env.log()} ; {env.cv_line()}"
     return line, env, c
 
@@ -189,11 +203,14 @@ def _native_expect(stmts, loop):
         first = ("r", cm.val(e.value))
     except BaseException as e:  # noqa: BLE001
         first = ("x", cm.cname(e))
+        first_chain = chain_of(e)
     else:
         first = ("y", y)
-        if isinstance(y, asyncio.Future):
+        if asyncio.isfuture(y):
             y._asyncio_future_blocking = False      # the receiver's half of the handshake (what a Task does)
     res = {"first": first}
+    if first[0] == "x":
+        res["chain"] = first_chain
     if first[0] != "y":
         res["cv"] = env.cv_line()
         # completes without suspending: cross-check with a genuine event-loop run
@@ -221,7 +238,7 @@ def _native_expect(stmts, loop):
             # coroutine must nevertheless end up finalized — natively that is what close() does.
             res["abort"] = "yield"
             res["keep2"] = y2
-            if isinstance(y2, asyncio.Future):
+            if asyncio.isfuture(y2):
                 y2._asyncio_future_blocking = False
             res["caught"] = "cSyncAbort" in env.L[n_before:]
             if not res["caught"]:
@@ -283,6 +300,8 @@ def judge_sync(stmts, loop, variant="await_sync"):
         tags.add(f"nested-depth-{depth_of(stmts)}")
     if "cset" in cm.sexp(stmts):
         tags.add("contextvar-writes")
+    if exp["first"][0] == "x" and exp.get("chain", "").startswith("cause=x:"):
+        tags.add("body-raises-chained-exception")
     if variant.endswith("_gen"):
         tags.add("generator-based-coroutine")
     futs_used = [x for x in cm.sexp(stmts).replace("(", " ").replace(")", " ").split("fut ")[1:]]
@@ -296,6 +315,9 @@ def judge_sync(stmts, loop, variant="await_sync"):
         tags.add("completes")
         if a["out"] != exp["out"]:
             bad = ("await_sync result differs from the native run", exp["out"], a["out"])
+        elif exp["first"][0] == "x" and env.chain != exp["chain"]:
+            bad = ("the coroutine's own exception arrives with another __cause__/__suppress_context__ than in the "
+                   "native run", exp["chain"], env.chain)
         elif a["log"] != exp["log"]:
             bad = ("side effects differ from the native run", exp["log"], a["log"])
         elif a["phase"] != "done":
@@ -305,7 +327,7 @@ def judge_sync(stmts, loop, variant="await_sync"):
                    f"cv={a['cv']} ; reset={a['reset']}")
     else:
         y = exp["first"][1]
-        on_future = isinstance(y, asyncio.Future)
+        on_future = asyncio.isfuture(y)
         tags.add("suspends-on-future" if on_future else "suspends-on-token")
         if "l" in a["log"] or "c" in a["log"]:
             tags.add("suspension-inside-try-or-after-effects")
@@ -515,6 +537,8 @@ def key_of(kind, bad):
         slug = "stranded"
     elif "did not give" in w:
         slug = "no-SynchronousError"
+    elif "__cause__" in w:
+        slug = "exception-chain"
     elif "result differs" in w:
         slug = "result"
     elif "context-variable" in w:
